@@ -1,0 +1,153 @@
+//go:build verif
+
+package broadcast
+
+// Add-only hook for the verification harness (/verif, properties C33 and C34).
+// Compiled only with -tags verif; no behaviour of the package changes.
+//
+// NewLtVerif builds the broadcast component over a caller-supplied P2PEnv the
+// way broadcastProtocol.init does, but WITHOUT the libp2p topic subscriptions,
+// the receive/publish worker goroutines and the validator goroutine, so that a
+// harness can feed handleBroadcastReceive / handleBroadcastSend directly and
+// read what the component publishes.  With startLoops the real background
+// loops (pendBlockLoop, blockRequestLoop) run exactly as in production.
+
+import (
+	"container/list"
+	"sync/atomic"
+
+	"github.com/33cn/chain33/common/pubsub"
+	"github.com/33cn/chain33/p2p/utils"
+	"github.com/33cn/chain33/queue"
+	"github.com/33cn/chain33/system/p2p/dht/protocol"
+	"github.com/33cn/chain33/types"
+	"github.com/libp2p/go-libp2p/core/peer"
+)
+
+// Topic names and peer message ids.
+const (
+	VerifTxTopic      = psTxTopic
+	VerifBatchTxTopic = psBatchTxTopic
+	VerifBlockTopic   = psBlockTopic
+	VerifLtBlockTopic = psLtBlockTopic
+	VerifBlockReqID   = blockReqMsgID
+	VerifBlockRespID  = blockRespMsgID
+)
+
+// LtVerif is a handle on one broadcast component.
+type LtVerif struct {
+	p *broadcastProtocol
+}
+
+// NewLtVerif mirrors broadcastProtocol.init (see above). pendTimeoutMs <= 0 keeps the default.
+func NewLtVerif(env *protocol.P2PEnv, pendTimeoutMs int64, startLoops bool) *LtVerif {
+	p := &broadcastProtocol{syncStatus: true}
+	p.P2PEnv = env
+	p.ps = pubsub.NewPubSub(1024)
+	p.cfg = env.SubConfig.Broadcast
+	if pendTimeoutMs > 0 {
+		p.cfg.LtBlockPendTimeout = pendTimeoutMs
+	}
+	p.setDefaultConfig()
+	p.txFilter = utils.NewFilter(p.cfg.TxFilterLen)
+	p.blockFilter = utils.NewFilter(p.cfg.BlockFilterLen)
+	p.val = newValidator(&pubSub{broadcastProtocol: p})
+	if startLoops {
+		p.ltB = initLightBroadcast(p)
+	} else {
+		l := &ltBroadcast{broadcastProtocol: p}
+		l.pendBlockList = list.New()
+		l.blockRequestList = list.New()
+		p.ltB = l
+	}
+	return &LtVerif{p: p}
+}
+
+// Receive is handleBroadcastReceive on one decoded pubsub message.
+func (v *LtVerif) Receive(topic string, value types.Message, receiveFrom, publisher peer.ID) {
+	v.p.handleBroadcastReceive(subscribeMsg{topic: topic, value: value, receiveFrom: receiveFrom, publisher: publisher})
+}
+
+// Send is handleBroadcastSend (EventTxBroadcast / EventBlockBroadcast).
+func (v *LtVerif) Send(msg *queue.Message) { v.p.handleBroadcastSend(msg) }
+
+// BuildLtBlock is buildLtBlock.
+func (v *LtVerif) BuildLtBlock(b *types.Block) *types.LightBlock { return v.p.buildLtBlock(b) }
+
+// SetMinLtBlockSize sets cfg.MinLtBlockSize (bytes).
+func (v *LtVerif) SetMinLtBlockSize(n int) { v.p.cfg.MinLtBlockSize = n }
+
+// SetDisableLtBlock sets cfg.DisableLtBlock.
+func (v *LtVerif) SetDisableLtBlock(b bool) { v.p.cfg.DisableLtBlock = b }
+
+// SetNoValidatorVerif puts the component into the state init() leaves it in when
+// cfg.DisableValidation is set: initPubSubBroadcast returns a pubSub whose val is nil.
+func (v *LtVerif) SetNoValidatorVerif() { v.p.val = nil }
+
+// PendTimeout returns cfg.LtBlockPendTimeout (ms).
+func (v *LtVerif) PendTimeout() int64 { return v.p.cfg.LtBlockPendTimeout }
+
+// AddBlockEvent is handleAddBlock (EventAddBlock): the node's height.
+func (v *LtVerif) AddBlockEvent(height int64) {
+	v.p.handleAddBlock(&queue.Message{Data: &types.Block{Height: height}})
+}
+
+// CurrentHeight is getCurrentHeight.
+func (v *LtVerif) CurrentHeight() int64 { return atomic.LoadInt64(&v.p.currHeight) }
+
+// PeerTopic is getPeerTopic.
+func (v *LtVerif) PeerTopic(id peer.ID) string { return v.p.getPeerTopic(id) }
+
+// PendLen / ReqLen: lengths of the pending-block and block-request lists.
+func (v *LtVerif) PendLen() int {
+	v.p.ltB.pdBlockLock.Lock()
+	defer v.p.ltB.pdBlockLock.Unlock()
+	return v.p.ltB.pendBlockList.Len()
+}
+
+// ReqLen see PendLen.
+func (v *LtVerif) ReqLen() int {
+	v.p.ltB.blockReqLock.Lock()
+	defer v.p.ltB.blockReqLock.Unlock()
+	return v.p.ltB.blockRequestList.Len()
+}
+
+// TickPendVerif runs the statements of the ticker case of pendBlockLoop once,
+// on the caller's goroutine (a panic propagates to the caller, as it would
+// propagate out of the loop goroutine, which has no recover).
+func (v *LtVerif) TickPendVerif() {
+	l := v.p.ltB
+	pdBlocks := l.buildPendList()
+	for _, pd := range pdBlocks {
+		if pd.block.GetHeight() > l.getCurrentHeight() {
+			l.pubPeerMsg(pd.fromPeer, blockReqMsgID, &types.ReqInt{Height: pd.block.GetHeight()})
+		}
+	}
+}
+
+// TickReqVerif runs the ticker case of blockRequestLoop once.
+func (v *LtVerif) TickReqVerif() { v.p.ltB.handleBlockReqList() }
+
+// SubPublished subscribes to what the component hands to the pubsub publisher.
+func (v *LtVerif) SubPublished() chan interface{} { return v.p.ps.Sub(psBroadcast) }
+
+// PublishedVerif unpacks one element of the SubPublished channel.
+func PublishedVerif(x interface{}) (topic string, msg types.Message, ok bool) {
+	m, ok := x.(publishMsg)
+	if !ok {
+		return "", nil, false
+	}
+	return m.topic, m.msg, true
+}
+
+// SyncPublished returns after everything published before the call has been
+// delivered to the subscribers' channels (the internal pubsub is one goroutine
+// fed by one channel).
+func (v *LtVerif) SyncPublished(marker interface{}) { v.p.ps.Pub(marker, psBroadcast) }
+
+// PendingBroadcastMsgs is the number of messages queued for the validator's feedback loop.
+func (v *LtVerif) PendingBroadcastMsgs() int {
+	v.p.val.msgLock.Lock()
+	defer v.p.val.msgLock.Unlock()
+	return v.p.val.msgList.Len()
+}
